@@ -140,7 +140,7 @@ man = dict(
     engines=[dict(name="pyvc", path="pyvc/", serves_properties=sorted(CLAIMED),
                   kind_free_text="home-grown deductive verifier for Python: real function ASTs + sidecar contracts -> verification conditions by path-wise symbolic execution with loop invariants -> z3, cvc5 on unknown; counter-models replayed on the real code")],
     checks=checks,
-    notes="Genuine defects repaired in /repo as 'fix:' commits are recorded in known_findings.json. Exit codes: 0 held, 1 violation, 2 undecided, 3 checker error. Every check also re-runs its supplier units (props/suppliers.py): the units that discharge the callee contracts its own units assume (loaders, serializers, __str__, timing readers, accessors, note readers), so that a change in a function between the property and its anchored code fails a named obligation in that property's own check. Exit 1 needs an input of the public API that fails on the real code, or a refuted post / raises / call-pre / closed / lemma obligation of a unit on a public function (then the VIOLATION line ends in no-failing-input-found); a refuted step of an inductive argument (loop invariant, step, frame) or a refuted contract of a private helper without such an input is exit 3 (undecided, obligation named), see DESIGN A2/A5. Archived experiments: seeded/ (279 property-breaking changes by independent sub-agents in fourteen rounds, tools/seedall_par.sh: all reported with a failing input), benign/ (141 behaviour-preserving changes in seven rounds - small refactorings, correct caches and hoists, housekeeping commits, correct rewrites, opt-in feature additions, internal interfaces changed with their callers - tools/benignall_par.sh: no VIOLATION line; 104 exit 0, 37 undecided). The thorough tier adds larger bounded grids, the statement-level search of the real API, and guards of the verifier itself (encoder vs CPython on pinned symbolic inputs, probes of the trusted theories).",
+    notes="Genuine defects repaired in /repo as 'fix:' commits are recorded in known_findings.json. Exit codes: 0 held, 1 violation, 2 undecided, 3 checker error. Every check also re-runs its supplier units (props/suppliers.py): the units that discharge the callee contracts its own units assume (loaders, serializers, __str__, timing readers, accessors, note readers), so that a change in a function between the property and its anchored code fails a named obligation in that property's own check. Exit 1 needs an input of the public API that fails on the real code, or a refuted post / raises / call-pre / closed / lemma obligation of a unit on a public function (then the VIOLATION line ends in no-failing-input-found); a refuted step of an inductive argument (loop invariant, step, frame) or a refuted contract of a private helper without such an input is exit 3 (undecided, obligation named), see DESIGN A2/A5. Archived experiments: seeded/ (280 property-breaking changes by independent sub-agents in fourteen rounds, tools/seedall_par.sh: all reported with a failing input), benign/ (141 behaviour-preserving changes in seven rounds - small refactorings, correct caches and hoists, housekeeping commits, correct rewrites, opt-in feature additions, internal interfaces changed with their callers - tools/benignall_par.sh: no VIOLATION line; 104 exit 0, 37 undecided). The thorough tier adds larger bounded grids, the statement-level search of the real API, and guards of the verifier itself (encoder vs CPython on pinned symbolic inputs, probes of the trusted theories).",
     not_applicable=na)
 json.dump(man, open(os.path.join(HERE, "MANIFEST.json"), "w"), indent=1)
 print("claimed", sorted(CLAIMED), "not_applicable", len(na))
